@@ -10,8 +10,21 @@ fn slim(o: &absmod::AbsOp) -> Json {
     json!({"o": o.o, "imm": o.imm, "refs": o.refs, "local": o.local, "labels": o.labels, "bt": o.bt})
 }
 
+/// the Module with the function built from a history (not emitted)
+pub fn build_module(hist: &[Json]) -> Module {
+    build(hist).0
+}
+
 pub fn replay(id: &str, hist: &[Json]) -> Json {
     let r = catch_unwind(AssertUnwindSafe(|| {
+        let (mut m, _f) = build(hist);
+        m.emit_wasm()
+    }));
+    replay_result(id, hist, r)
+}
+
+fn build(hist: &[Json]) -> (Module, FunctionId) {
+    {
         let mut m = Module::default();
         let p0 = m.locals.add(ValType::I32);
         let a = m.locals.add(ValType::I32);
@@ -102,8 +115,11 @@ pub fn replay(id: &str, hist: &[Json]) -> Json {
         }
         let f = fb.finish(vec![p0], &mut m.funcs);
         m.exports.add("f", f);
-        m.emit_wasm()
-    }));
+        (m, f)
+    }
+}
+
+fn replay_result(id: &str, hist: &[Json], r: std::thread::Result<Vec<u8>>) -> Json {
     match r {
         Ok(bytes) => {
             let valid = absmod::validate(&bytes);
